@@ -1,6 +1,7 @@
 import ComposeVerif.Ops.Common
 import ComposeVerif.Model.ShortTransform
 import ComposeVerif.Model.ShortDecode
+import ComposeVerif.Model.ShortMerge
 import ComposeVerif.Spec.Short
 /-! line-protocol ops for C03: short-syntax parsers, `transform.Canonical`, decoders, and the grammar specs -/
 open Lean
@@ -133,7 +134,34 @@ def pathNextOp : Handler := fun args =>
   let part := getStr args "part"
   Json.mkObj [("next", Json.arr ((TPath.next p part).map Json.str).toArray), ("nextK", Json.arr ((TPath.nextK p part).map Json.str).toArray)]
 
+/-- `Canonical(Merge(Canonical(doc1), doc2))` at `services.s.<attr>` (depends_on, networks, build): the attribute-level
+model `twoDocsAt` and, under "whole", the whole-tree model `loadDocsC` on `{services: {s: {<attr>: doc}}}` (same outcome format) -/
+def twoDocsOp : Handler := fun args =>
+  match Val.ofJson (getObj args "doc1"), Val.ofJson (getObj args "doc2") with
+  | .ok v1, .ok v2 =>
+    let attr := getStr args "attr"
+    let wrap (v : Val) : Val := .map [("services", .map [("s", .map [(attr, v)])])]
+    let unwrap (v : Val) : Val :=
+      match v with
+      | .map top => match Val.lookup "services" top with
+        | some (.map svcs) => match Val.lookup "s" svcs with
+          | some (.map sv) => (Val.lookup attr sv).getD .null
+          | _ => .null
+        | _ => .null
+      | _ => .null
+    let whole : Json := match loadDocsC false (wrap v1) [wrap v2] with
+      | .ok r => Json.mkObj [("ok", (unwrap r).toJson)]
+      | .err _ => Json.mkObj [("err", "err")]
+      | .panic s => Json.mkObj [("panic", s)]
+    match twoDocsAt attr v1 v2 with
+    | none => Json.mkObj [("bad", "attr")]
+    | some (.ok r) => Json.mkObj [("ok", r.toJson), ("whole", whole)]
+    | some (.err _) => Json.mkObj [("err", "err"), ("whole", whole)]
+    | some (.panic s) => Json.mkObj [("panic", s), ("whole", whole)]
+  | _, _ => Json.mkObj [("bad", "tree")]
+
 def handlers : List (String × Handler) := [
+  ("c03.twoDocs", twoDocsOp),
   ("c03.pathNext", pathNextOp),
   ("c03.parseVolume", parseVolumeOp), ("c03.parsePort", parsePortOp), ("c03.canonical", canonicalOp),
   ("c03.canonical2", canonical2Op), ("c03.decode", decodeOp), ("c03.pathClean", pathCleanOp), ("c03.validIP", validIPOp),
